@@ -179,7 +179,9 @@ func applySubQueryFilters(query *sql.Query, opts *Opts, source core.RowSource) (
 	return core.RowFilter(source, query.WhereSQL, func(ctx context.Context, key bytemap.ByteMap, fields core.Fields, vals core.Vals) (bytemap.ByteMap, core.Vals, error) {
 		if atomic.CompareAndSwapInt32(&hasRunSubqueries, 0, 1) {
 			_, err := runSubQueries(ctx)
-			if err != nil && err != core.ErrDeadlineExceeded {
+			if err != nil {
+				// includes core.ErrDeadlineExceeded: a filter computed from a truncated
+				// subquery result would silently include or exclude the wrong rows
 				return nil, nil, err
 			}
 		}
